@@ -1,10 +1,82 @@
 import Dmn.Model.Sexp
+import Dmn.Model.Lexer
+import Dmn.Model.LexerSpec
 
-/-! Driver handler for C10 — not implemented yet. -/
+/-!
+Driver handler for C10 (and the lexer part of C05):
+
+* `(c10 tokenize (u b t ti) (key…) input limit)` — the model's token stream
+  (`Dmn.Lexer.tokenize`), start token `StartExpression`; strings are `(s cp…)`.
+  Answer: `(item…)` with `item` = `(tok code payload pos)`, `(err kind arg… pos)`,
+  `(panic site)` or `(fuelout)`.
+* `(c10 resolve (bound…) text)` — the specification `specResolve`: `(some name len)` / `(none)`.
+* `(c10 namenew (part…))` — `((s Name::new) (s flatten_name_parts))`.
+-/
 
 namespace Dmn.Driver.C10
-open Dmn
+open Dmn Dmn.Lexer
 
-def handle (_args : List Sexp) : String := "(error not-implemented)"
+def ofCps (cs : List Nat) : Sexp := .list (.atom "s" :: cs.map (fun c => .atom (toString c)))
+
+def cps? : Sexp → Option (List Nat)
+  | .list (.atom "s" :: cs) => cs.mapM Sexp.nat?
+  | _ => none
+
+def cpsList? : Sexp → Option (List (List Nat))
+  | .list xs => xs.mapM cps?
+  | _ => none
+
+def payloadSexp : Payload → Sexp
+  | .none => .atom "none"
+  | .boolean b => .list [.atom "b", Sexp.ofBool b]
+  | .numeric a b => .list [.atom "num", ofCps a, ofCps b]
+  | .string s => .list [.atom "str", ofCps s]
+  | .name n => .list [.atom "name", ofCps n]
+
+def errSexp (e : LexErr) (pos : Nat) : Sexp :=
+  let n (x : Nat) : Sexp := .atom (toString x)
+  match e with
+  | .unexpectedEof => .list [.atom "err", .atom "unexpectedEof", n pos]
+  | .expectedCharacter a b => .list [.atom "err", .atom "expectedCharacter", n a, n b, n pos]
+  | .expectedCharacters a => .list [.atom "err", .atom "expectedCharacters", n a, n pos]
+  | .expectedHexDigit a => .list [.atom "err", .atom "expectedHexDigit", n a, n pos]
+  | .unicodeValueOutOfRange v => .list [.atom "err", .atom "unicodeValueOutOfRange", n v, n pos]
+  | .unicodeSurrogateOutOfRange v => .list [.atom "err", .atom "unicodeSurrogateOutOfRange", n v, n pos]
+  | .unicodeConversionFailed v => .list [.atom "err", .atom "unicodeConversionFailed", n v, n pos]
+
+def siteStr : PanicSite → String
+  | .itemPositions0 => "itemPositions0"
+  | .tillInIndexMinus1 => "tillInIndexMinus1"
+  | .tillInPositions => "tillInPositions"
+  | .prefixSlice => "prefixSlice"
+  | .prefixPositions => "prefixPositions"
+
+def itemSexp : Item → Sexp
+  | .token t pos => .list [.atom "tok", .atom (toString t.tt.code), payloadSexp t.val, .atom (toString pos)]
+  | .error e pos => errSexp e pos
+  | .panic s => .list [.atom "panic", .atom (siteStr s)]
+  | .fuelOut => .list [.atom "fuelout"]
+
+def handle (args : List Sexp) : String :=
+  match args with
+  | [.atom "tokenize", .list [u, b, t, ti], keys, input, limit] =>
+    match Sexp.bool? u, Sexp.bool? b, Sexp.bool? t, Sexp.bool? ti, cpsList? keys, cps? input, Sexp.nat? limit with
+    | some u, some b, some t, some ti, some keys, some input, some limit =>
+      let l : Lx := { input := input, pos := 0, start := some .startExpression, unaryTests := u,
+                      between := b, typeName := t, tillIn := ti, keys := keys }
+      toString (Sexp.list ((tokenize l limit).map itemSexp))
+    | _, _, _, _, _, _, _ => "(error bad-args)"
+  | [.atom "resolve", bound, text] =>
+    match cpsList? bound, cps? text with
+    | some bound, some text =>
+      match specResolve bound text with
+      | some (name, len) => toString (Sexp.list [.atom "some", ofCps name, .atom (toString len)])
+      | none => "(none)"
+    | _, _ => "(error bad-args)"
+  | [.atom "namenew", parts] =>
+    match cpsList? parts with
+    | some parts => toString (Sexp.list [ofCps (nameNew parts), ofCps (flattenNameParts parts)])
+    | none => "(error bad-args)"
+  | _ => "(error bad-request)"
 
 end Dmn.Driver.C10
